@@ -6,7 +6,7 @@
 From Coq Require Import ZArith Reals List Bool.
 Import ListNotations.
 Require Import MV.Lib.Base MV.C19.Ops MV.C19.OpsR MV.C19.Gen MV.C19.Model.
-Require Import MV.C19.Proofs_Index MV.C19.Proofs_Counts MV.C19.Proofs_Bezier MV.C19.Proofs_Samplers MV.C19.Proofs_Export MV.C19.Proofs_Main.
+Require Import MV.C19.Proofs_Geometry MV.C19.Proofs_Hull MV.C19.Proofs_Index MV.C19.Proofs_Counts MV.C19.Proofs_Bezier MV.C19.Proofs_Samplers MV.C19.Proofs_Export MV.C19.Proofs_Main.
 Open Scope R_scope.
 
 (* ---------------------------------------------------------------- counts
@@ -231,6 +231,49 @@ Theorem C19_patch_corners : forall (rows : list (list R)), rows <> [] ->
   patch_bernstein1 rows 1 1 = nth (length lastrow - 1) lastrow 0.
 Proof. exact patch_corners. Qed.
 Print Assumptions C19_patch_corners.
+
+(* convex hull, coordinate-wise: between the extreme control values - curves and patches *)
+Theorem C19_bezier_within_control_bounds : forall P t lo hi x, P <> [] -> 0 <= t <= 1 ->
+  (forall i, (i < length P)%nat -> lo <= nth i P 0 <= hi) -> de_casteljau Rops P t = Ok x -> lo <= x <= hi.
+Proof. exact curve_within_bounds. Qed.
+Print Assumptions C19_bezier_within_control_bounds.
+
+Theorem C19_patch_within_control_bounds : forall rows u v lo hi, rows <> [] -> Forall (fun r => r <> []) rows ->
+  0 <= u <= 1 -> 0 <= v <= 1 ->
+  (forall row, In row rows -> forall i, (i < length row)%nat -> lo <= nth i row 0 <= hi) ->
+  exists x, patch_eval1 Rops rows u v = Ok x /\ lo <= x <= hi.
+Proof. exact patch_within_bounds. Qed.
+Print Assumptions C19_patch_within_control_bounds.
+
+(* a patch value is the convex combination of ALL control points with the product weights b_j(v) b_i(u) *)
+Theorem C19_patch_convex_hull : forall rows u v n, rows <> [] -> Forall (fun r => length r = S n) rows ->
+  0 <= u <= 1 -> 0 <= v <= 1 ->
+  let m := (length rows - 1)%nat in
+  let w := fun j i => bw v m j * bw u n i in
+  (forall j i, 0 <= w j i) /\
+  rsum (S m) (fun j => rsum (S n) (fun i => w j i)) = 1 /\
+  patch_bernstein1 rows u v = rsum (S m) (fun j => rsum (S n) (fun i => w j i * nth i (nth j rows []) 0)).
+Proof. exact patch_convex_combination. Qed.
+Print Assumptions C19_patch_convex_hull.
+
+(* ---------------------------------------------------------------- the code's geometry is the Euclidean one
+   c_* are assembled from the component expressions generated from geometry.cross / norm / distance / triangle_area,
+   Vec.norm / normalized as applied by attributes.edge_length / face_area / face_normals; the weights handed to
+   `choice` and the returned normals go through them (edge_lengths, face_areas, face_normals of Model.v) *)
+Theorem C19_code_geometry_is_euclidean : forall (A B C : R * R * R),
+  c_edge_len Rops A B = dist3 Rops A B /\
+  c_tri_area Rops A B C = norm3 Rops (cross3 Rops (sub3 Rops B A) (sub3 Rops C A)) / 2 /\
+  c_tri_normal Rops A B C = tri_normal Rops A B C /\
+  (forall a b, c_cross3 Rops a b = cross3 Rops a b).
+Proof. exact code_geometry_is_euclidean. Qed.
+Print Assumptions C19_code_geometry_is_euclidean.
+
+(* ... and cross3 is the cross product: orthogonal to both factors, |a x b|^2 = |a|^2 |b|^2 - (a.b)^2 *)
+Theorem C19_cross_product_laws : forall (a b : R * R * R),
+  dot3 Rops (cross3 Rops a b) a = 0 /\ dot3 Rops (cross3 Rops a b) b = 0 /\
+  sumsq3 Rops (cross3 Rops a b) = sumsq3 Rops a * sumsq3 Rops b - dot3 Rops a b * dot3 Rops a b.
+Proof. exact cross3_orthogonal. Qed.
+Print Assumptions C19_cross_product_laws.
 
 (* ---------------------------------------------------------------- exports *)
 (* as_polyline: one vertex per sampled position at the curve's value, edges link consecutive SAMPLES
